@@ -62,7 +62,7 @@ def units(tier):
         k = 16 if gran in ("line", "call-all") or bound == 2 else 8
         us += [("SCHED", pi, s, k) for s in range(k)]
     us += [("HISTFRESH", 2 if tier == "quick" else 3, i) for i in range(len(hist_ops()))]
-    us += [("DEBRUIJN", 3 if tier == "quick" else 4)]
+    us += [("DEBRUIJN", 3 if tier == "quick" else 4, i, 16) for i in range(16)]
     us += [("PURE_S6", i) for i in range(8)]
     us += [("PURE", t) for t in V.object_types()] + [("PURE_S4", i) for i in range(16)]
     us += [("PURE_CMT", i) for i in range(16)]
@@ -159,6 +159,7 @@ def hist_ops():
     return [
         ("parse_c", DOC_A), ("parse_c", DOC_B), ("parse_c", DOC_C), ("parse_c", DOC_BAD), ("parse_c", DOC_BAD2), ("parse_c", DOC_D),
         ("parse_n", DOC_A), ("parse_n", DOC_BAD), ("parse_np", DOC_B), ("parse_n", DOC_E1), ("parse_n", DOC_E2), ("parse_n", DOC_P), ("parse_ns", DOC_P),
+        ("parse_file", "a"), ("parse_file", "b"), ("parse_text_inc", 'MAP\n  INCLUDE "inc.map"\nEND\n'),
         ("print", DOC_A), ("print", DOC_E1), ("print", DOC_E2), ("print", DOC_INVALID), ("print_c", DOC_B), ("print_sc", DOC_C),
         ("validate", DOC_A, None), ("validate", DOC_INVALID, 7.6), ("validate", DOC_INVALID, 8.2),
     ]
@@ -178,6 +179,7 @@ class Workers:
         self.tp = MapfileToDict(include_position=True)
         self.pp = PrettyPrinter()
         self.v = Validator()
+        self.pi = Parser(expand_includes=True)
 
 
 def do_op(w, op):
@@ -191,6 +193,17 @@ def do_op(w, op):
             out = ("ok", D.typed(d))
             _scribble(d)
             return out
+        if op[0] == "parse_file":
+            # a named file (relative INCLUDEs resolve against its directory)
+            return ("ok", D.typed(w.tn.transform(w.pi.parse_file(inc_roots()[op[1]]))))
+        if op[0] == "parse_text_inc":
+            # a plain string with a relative INCLUDE: resolves against the working directory (directory b), whatever was parsed before
+            cwd = os.getcwd()
+            os.chdir(os.path.dirname(inc_roots()["b"]))
+            try:
+                return ("ok", D.typed(w.tn.transform(w.pi.parse(op[1]))))
+            finally:
+                os.chdir(cwd)
         if op[0] == "parse_np":
             return ("ok", D.typed(w.tp.transform(w.pn.parse(op[1]))))
         if op[0] == "print":
@@ -259,7 +272,7 @@ def run_hist_fresh(res, depth, first):
 
 
 def doc_name(op):
-    return {DOC_A: "A", DOC_B: "B", DOC_C: "C", DOC_D: "D", DOC_BAD: "BAD", DOC_BAD2: "BAD2", DOC_INVALID: "INVALID", DOC_E1: "E1", DOC_E2: "E2", DOC_P: "P"}.get(op[1], "?") + ("" if len(op) < 3 else "@%s" % op[2])
+    return {DOC_A: "A", DOC_B: "B", DOC_C: "C", DOC_D: "D", DOC_BAD: "BAD", DOC_BAD2: "BAD2", DOC_INVALID: "INVALID", DOC_E1: "E1", DOC_E2: "E2", DOC_P: "P", "a": "a/root.map", "b": "b/root.map", 'MAP\n  INCLUDE "inc.map"\nEND\n': "text with INCLUDE"}.get(op[1], "?") + ("" if len(op) < 3 else "@%s" % op[2])
 
 
 def de_bruijn(k, n):
@@ -282,24 +295,29 @@ def de_bruijn(k, n):
     return seq + seq[: n - 1]
 
 
-def run_debruijn(res, order):
+def run_debruijn(res, order, shard=0, nshards=1):
+    """one long history in which every window of `order` consecutive operations occurs (a de Bruijn sequence), cut into nshards pieces that
+    overlap by order-1 operations, each piece on its own reused worker objects"""
     ops = hist_ops()
     seq = de_bruijn(len(ops), order)
+    size = (len(seq) + nshards - 1) // nshards
+    lo, hi = shard * size, min(len(seq), (shard + 1) * size)
+    piece = seq[max(0, lo - (order - 1)): hi]
     w = Workers()
-    for i, oi in enumerate(seq):
+    for i, oi in enumerate(piece):
         a = do_op(w, ops[oi])
         res["evals"] += 1
         if a != fresh(ops[oi]):
-            window = seq[max(0, i - order + 1): i + 1]
+            window = piece[max(0, i - order + 1): i + 1]
             names = ["%s(%s)" % (ops[j][0], doc_name(ops[j])) for j in window]
             R.add_outcome(res, "history_dependent")
             R.add_violation(res, "window|" + ";".join(names), "in a long history on reused worker objects this window answers differently from fresh objects",
-                            {"window": names, "position": i}, None)
+                            {"window": names, "position": lo + i}, None)
             w = Workers()
         else:
             R.add_outcome(res, "history_independent")
-    res["states"].add(R.h64(("debruijn", order, len(seq))))
-    R.add_sub(res, "every window of %d consecutive operations (de Bruijn history of %d calls)" % (order, len(seq)), len(seq))
+    res["states"].add(R.h64(("debruijn", order, len(seq), shard)))
+    R.add_sub(res, "every window of %d consecutive operations (de Bruijn history of %d calls, piece %d/%d)" % (order, len(seq), shard + 1, nshards), len(piece))
 
 
 # ------------------------------------------------------------------ schedules
@@ -312,18 +330,7 @@ def api_calls():
     if not os.path.exists(fn):
         with open(fn, "w", encoding="utf-8") as f:
             f.write(DOC_B)
-    # two root Mapfiles in different directories, each including a file of the same relative name
-    roots = {}
-    for sub in ("a", "b"):
-        os.makedirs(os.path.join(tmpdir, sub), exist_ok=True)
-        roots[sub] = os.path.join(tmpdir, sub, "root.map")
-        if not os.path.exists(roots[sub]):
-            with open(os.path.join(tmpdir, sub, "inc.map"), "w", encoding="utf-8") as f:
-                f.write('NAME "%s"\nINCLUDE "inc2.map"\n' % sub)
-            with open(os.path.join(tmpdir, sub, "inc2.map"), "w", encoding="utf-8") as f:
-                f.write('LAYER NAME "layer_%s" TYPE POINT END\n' % sub)
-            with open(roots[sub], "w", encoding="utf-8") as f:
-                f.write('MAP\n  INCLUDE "inc.map"\nEND\n')
+    roots = inc_roots()
     dA = mappyfile.loads(DOC_A)
     dI = mappyfile.loads(DOC_INVALID)
     dL = mappyfile.loads('MAP LAYER NAME "a" GROUP "g" TYPE POINT END LAYER NAME "b" TYPE POINT END END')
@@ -358,6 +365,23 @@ def api_calls():
 
 
 _td = None
+
+
+def inc_roots():
+    """two root Mapfiles in different directories, each including files of the same relative names"""
+    tmpdir = _tmpdir()
+    roots = {}
+    for sub in ("a", "b"):
+        os.makedirs(os.path.join(tmpdir, sub), exist_ok=True)
+        roots[sub] = os.path.join(tmpdir, sub, "root.map")
+        if not os.path.exists(roots[sub]):
+            with open(os.path.join(tmpdir, sub, "inc.map"), "w", encoding="utf-8") as f:
+                f.write('NAME "%s"\nINCLUDE "inc2.map"\n' % sub)
+            with open(os.path.join(tmpdir, sub, "inc2.map"), "w", encoding="utf-8") as f:
+                f.write('LAYER NAME "layer_%s" TYPE POINT END\n' % sub)
+            with open(roots[sub], "w", encoding="utf-8") as f:
+                f.write('MAP\n  INCLUDE "inc.map"\nEND\n')
+    return roots
 
 
 def _tmpdir():
@@ -461,7 +485,7 @@ def run_unit(unit):
     elif k == "HISTFRESH":
         run_hist_fresh(res, unit[1], unit[2])
     elif k == "DEBRUIJN":
-        run_debruijn(res, unit[1])
+        run_debruijn(res, unit[1], unit[2], unit[3])
     elif k == "PURE":
         run_pure(res, [(label, D.render(tree)[0]) for label, tree in S.s1(unit[1])])
     elif k == "PURE_S4":
